@@ -21,7 +21,7 @@ from pmon.ref import lexer as R
 
 ID = 'C18'
 PYTEST_LAW = 'C18'     # also run /repo's own tests with this property's law attached
-RULE = ('quote: exhaustive strings of length<=3 (quick) / <=4 (thorough) over the 16-character '
+RULE = ('quote: exhaustive strings of length<=3 (quick) / <=4 (thorough) over the 19-character '
         'alphabet {a " \\ LF TAB CR NUL e-acute U+2028 ( ~ : / SP VT NEL} plus seeded random strings to '
         '200 characters incl. lone surrogates, numbers, None; evaluate/type: exhaustive atom texts of '
         'length<=4 (quick) / <=5 (thorough) over {0 1 - + . e E " a N n t [ { , ] \\} plus the '
@@ -35,7 +35,7 @@ REQUIRED_COUNTERS = ['quoted', 'evaluated', 'int', 'float', 'constant_error', 's
 NUM = re.compile(r'-?(0|[1-9][0-9]*)(\.[0-9]+)?([eE][+-]?[0-9]+)?')    # JSON number grammar: ASCII digits only
 ATOM_ALPHA = ['0', '1', '-', '+', '.', 'e', 'E', '"', 'a', 'N', 'n', 't', '[', '{', ',', ']', '\\', '}']
 QUOTE_ALPHA = ['a', '"', '\\', '\n', '\t', '\r', '\x00', '\u00e9', '\u2028', '(', '~', ':', '/', ' ',
-               '\x0b', '\x85']
+               '\x0b', '\x85', 'u', 'n', '0']     # (escape letters and a hex digit: backslash+u, backslash+n ... as content)
 EXTRA = ['true', 'false', 'null', 'NaN', 'Infinity', '-Infinity', '1e400', '-0', '01', '1.', '.5',
          '"\\u00e9"', '"\\x"', '[1]', '{"a":1}', '"a" "b"', '""', '"', '1e-400', '-1e400', 'True',
          'None', '0x10', '1_0', '+1', '1e5', '1E+5', '-0.0', '"\\ud800"', 'nan', 'inf', '\u0661', '\uff11\uff12', '\u00b2', '1\u0662', '[]', '{}', '[[]]', '"a\nb"', '-', '--1', '1e', '1e+', '0.', '-.5', '00', '"\\""', '"\\"']
